@@ -266,7 +266,7 @@ class C13Pairs(Scenario):
             ctx.fault("refilled_same_count")
             return {"r": "ok", "count": tgt.elements_added}
         if op == "ops":
-            return self.pair_ops(step["order"], step.get("poke"))
+            return self.pair_ops(step["order"], step.get("poke"), step.get("alt") in ("kw", "altkw"))
         if op == "derive":
             return self.derive(step)
         if op == "foreign":
@@ -342,7 +342,7 @@ class C13Pairs(Scenario):
         self.ctx.fault("foreign_operand")
         return {"r": "ok"}
 
-    def pair_ops(self, order, poke=None):
+    def pair_ops(self, order, poke=None, kw=False):
         from probables.exceptions import CountMinSketchError
 
         ctx = self.ctx
@@ -354,7 +354,7 @@ class C13Pairs(Scenario):
         if kind == "cms":
             recv = copy.deepcopy(x)
             try:
-                recv.join(y)
+                structs.set_op(recv, "join", y, kw)
                 joined = True
             except CountMinSketchError:
                 joined = False
@@ -379,10 +379,12 @@ class C13Pairs(Scenario):
             ctx.fault("incompatible_pair" if not self.compatible else "compatible_pair")
             ctx.nontrivial = True
             return {"r": "ok", "joined": joined}
-        inter = x.intersection(y)
-        uni = x.union(y)
-        jac = x.jaccard_index(y)
+        inter = structs.set_op(x, "intersection", y, kw)
+        uni = structs.set_op(x, "union", y, kw)
+        jac = structs.set_op(x, "jaccard_index", y, kw)
         jac_r = y.jaccard_index(x)
+        if kw:
+            ctx.fault("operand_by_keyword")
         if self.snapshot(x) != sx or self.snapshot(y) != sy:
             raise Violation("operand_modified", "union / intersection / jaccard_index modified an operand", sig)
         if not self.compatible:
